@@ -592,6 +592,16 @@ func (s *Sys) exec1(toks []string) string {
 			return rBytes(v)
 		case "vexists":
 			return rBool(t.VersionExists(atoi(toks[1])))
+		case "isempty":
+			return rBool(t.IsEmpty())
+		case "fastflags":
+			// IsFastCacheEnabled and IsUpgradeable of the open tree object
+			en, err1 := t.IsFastCacheEnabled()
+			up, err2 := t.IsUpgradeable()
+			if err1 != nil || err2 != nil {
+				return "err"
+			}
+			return fmt.Sprintf("ff:%v,%v", en, up)
 		case "latest":
 			v, err := t.GetLatestVersion()
 			if err != nil {
